@@ -95,10 +95,10 @@ type connFault struct {
 
 type faultConn struct {
 	net.Conn
-	f        *connFault
-	mu       sync.Mutex
-	wr, rd   int
-	tripped  bool
+	f       *connFault
+	mu      sync.Mutex
+	wr, rd  int
+	tripped bool
 }
 
 func (c *faultConn) Write(p []byte) (int, error) {
@@ -158,7 +158,7 @@ type recorded struct {
 
 type responder struct {
 	mu     sync.Mutex
-	got    map[string][]recorded    // tag -> what arrived (more than one = duplicate delivery)
+	got    map[string][]recorded       // tag -> what arrived (more than one = duplicate delivery)
 	answer map[string]raft.RPCResponse // tag -> what the handler produced
 	rng    *rand.Rand
 	delay  time.Duration
@@ -412,12 +412,12 @@ func eqResp(got interface{}, gotErr error, want raft.RPCResponse) string {
 // ---------- harness ----------
 
 type pair struct {
-	a, b    *raft.NetworkTransport
-	addrB   raft.ServerAddress
-	resp    *responder
-	stop    chan struct{}
-	wg      sync.WaitGroup
-	pn      *pipeNet
+	a, b  *raft.NetworkTransport
+	addrB raft.ServerAddress
+	resp  *responder
+	stop  chan struct{}
+	wg    sync.WaitGroup
+	pn    *pipeNet
 }
 
 func quietLogger() hclog.Logger {
